@@ -21,7 +21,7 @@ from ..seq import Layouts, UNKNOWN, show
 
 COV = "inference/gp/covariance.py"
 MEAN = "inference/gp/mean.py"
-FLOORS = {"difference-before-square": 1, "float-arithmetic": 2, "builder-vs-pairwise": 4, "value-sibling": 4, "gradient-is-derivative": 9, "changepoint-siblings": 4,
+FLOORS = {"changepoint-instance": 4, "difference-before-square": 1, "float-arithmetic": 2, "builder-vs-pairwise": 4, "value-sibling": 4, "gradient-is-derivative": 9, "changepoint-siblings": 4,
           "composition-order": 4, "mean-sibling": 3, "mean-gradient": 3, "composite-structure": 3,
           "changepoint-shared-inplace": 3, "arguments-not-mutated": 60, "overflow-safe": 8}
 
@@ -182,6 +182,9 @@ def run(prog, tier):
 
     # ---------------------------------------------------------------- change-point recurrence: three copies agree
     obs.extend(_changepoint(prog, cp))
+    obs.extend(_changepoint_instance(prog, cp, 3))
+    if tier == "thorough":
+        obs.extend(_changepoint_instance(prog, cp, 4))
 
     # ---------------------------------------------------------------- composites
     obs.extend(_composite(prog))
@@ -267,6 +270,211 @@ def shared_inplace(fn):
                 hits.append((st.lineno, f"lists `{a}` and `{b}` may hold the same array ({sorted(common)}) and `{U(st)}` updates an "
                                         f"element in place"))
     return hits
+
+
+class _CPExpander(Expander):
+    """Expander for the unrolled change-point methods: `.T` swaps the row / column tags of outer-product factors, loops over
+    literal lists are run element by element."""
+    def eval_attribute(self, node, env):
+        if node.attr == "T":
+            v = self.eval(node.value, env)
+            if isinstance(v, R):
+                m = {}
+                for a in v.all_atoms():
+                    if a[0] == "sym" and a[1].endswith("[@r]"):
+                        m[a] = R.sym(a[1][:-4] + "[@c]")
+                    elif a[0] == "sym" and a[1].endswith("[@c]"):
+                        m[a] = R.sym(a[1][:-4] + "[@r]")
+                return anf.subst(v, m) if m else v
+            return v
+        return super().eval_attribute(node, env)
+
+    def eval(self, node, env):
+        # generator expressions are evaluated like list comprehensions; a literal list may be indexed by a computed integer
+        if isinstance(node, ast.GeneratorExp):
+            return self.eval_listcomp(ast.copy_location(ast.ListComp(elt=node.elt, generators=node.generators), node), env)
+        if isinstance(node, ast.Subscript) and not isinstance(node.slice, (ast.Constant, ast.Slice, ast.Tuple)) \
+                and not (isinstance(node.slice, ast.UnaryOp) and isinstance(node.slice.operand, ast.Constant)):
+            try:
+                base = self.eval(node.value, env)
+            except Unsupported:
+                base = None
+            if isinstance(base, (ListV, TupleV)):
+                iv = self.eval(node.slice, env)
+                if isinstance(iv, R) and iv.is_const() and iv.const_value().denominator == 1:
+                    k = int(iv.const_value())
+                    if -len(base.items) <= k < len(base.items):
+                        return base.items[k]
+                raise Unsupported(f"index `{U(node.slice)}` of a literal list is not a known integer")
+        return super().eval(node, env)
+
+    def child(self, mi, ci, selfname):
+        e = _CPExpander(self.prog, mi, ci, selfname, self.depth)
+        e.scalar_names, e.call_hook, e.on_for, e.opaque_self_attrs = self.scalar_names, self.call_hook, self.on_for, self.opaque_self_attrs
+        return e
+
+
+def _changepoint_instance(prog, cp, n_kernels=3):
+    """The change-point covariance specialised to `n_kernels` kernels (loops unrolled, sa/unroll.py) and expanded exactly:
+    value = sum_i K_i c_i with c_0 = a_1, c_i = b_i a_(i+1), c_last = b_last (a_k = (1-w_k)(x)(1-w_k), b_k = w_k (x) w_k) in all
+    three methods, and every entry of the gradient list is the derivative of that value with respect to its parameter - in
+    particular the location / width entries of change-point k carry the factor that links kernel k to its other neighbour."""
+    from ..unroll import specialise
+    out = []
+    m = n_kernels
+    consts, lengths = {"self.n_kernels": m}, {"self.cp_slc": m - 1}
+    K = [R.sym(f"K{i}") for i in range(m)]
+    Wr = [R.sym(f"W{k}[@r]") for k in range(m - 1)]
+    Wc = [R.sym(f"W{k}[@c]") for k in range(m - 1)]
+    a = [(1 - Wr[k]) * (1 - Wc[k]) for k in range(m - 1)]
+    b = [Wr[k] * Wc[k] for k in range(m - 1)]
+    c = []
+    for i in range(m):
+        ci_ = R.const(1)
+        if i > 0:
+            ci_ = ci_ * b[i - 1]
+        if i < m - 1:
+            ci_ = ci_ * a[i]
+        c.append(ci_)
+    want_val = R.const(0)
+    for i in range(m):
+        want_val = want_val + K[i] * c[i]
+
+    import re as _re
+
+    def idx_of(node, e=None, env_=None):
+        """The component index an expression refers to: self.cov[k] / theta[self.cov_slc[k]] / theta[self.cp_slc[k]] - read from the
+        syntax, or (for a local that holds such a value) from the evaluated term."""
+        for n in ast.walk(node):
+            if isinstance(n, ast.Subscript) and U(n.value) in ("self.cov", "self.cp_slc", "self.cov_slc") and isinstance(n.slice, ast.Constant):
+                return n.slice.value
+        if e is not None:
+            # a local that holds the slice / the kernel (bound by zip / enumerate over the component lists)
+            for n in ast.walk(node):
+                if isinstance(n, ast.Name) and n.id in env_ and isinstance(env_[n.id], R):
+                    mm = _re.search(r"self\.(?:cp_slc|cov_slc|cov)\[(\d+)\]", str(env_[n.id]))
+                    if mm:
+                        return int(mm.group(1))
+            try:
+                v = e.eval(node, env_)
+            except Unsupported:
+                return None
+            mm = _re.search(r"self\.(?:cp_slc|cov_slc|cov)\[(\d+)\]", str(v))
+            if mm:
+                return int(mm.group(1))
+        return None
+
+    def hook(e, node, env_):
+        f = node.func
+        ftxt = U(f)
+        if isinstance(f, ast.Attribute) and f.attr in ("covariance_and_gradients", "build_covariance") and idx_of(f.value, e, env_) is not None \
+                and "self.cov[" in (U(f.value) + str(e.eval(f.value, env_) if not isinstance(f.value, ast.Subscript) else "")):
+            i = idx_of(f.value, e, env_)
+            si = idx_of(node.args[0], e, env_) if node.args else None
+            tag = "" if si == i else f"<theta slice {si}>"
+            if f.attr == "build_covariance":
+                return R.sym(f"K{i}{tag}")
+            return TupleV([R.sym(f"K{i}{tag}"), ListV([R.sym(f"dK{i}{tag}")])])
+        kernel_local = isinstance(f, ast.Name) and f.id in env_ and isinstance(env_[f.id], R) and str(env_[f.id]).startswith("self.cov[")
+        if (isinstance(f, ast.Subscript) and U(f.value) == "self.cov") or kernel_local:
+            i = idx_of(f, e, env_)
+            si = idx_of(node.args[2], e, env_) if len(node.args) > 2 else None
+            order = [U(x) for x in node.args[:2]]
+            tag = "" if (si == i and order == points) else f"<args {order}, theta slice {si}>"
+            return R.sym(f"K{i}{tag}")
+        if isinstance(f, ast.Name) and f.id in ("zip", "enumerate", "range", "len") and not node.keywords:
+            if f.id == "range" and len(node.args) == 1:
+                n_ = e.eval(node.args[0], env_)
+                if isinstance(n_, R) and n_.is_const() and n_.const_value().denominator == 1:
+                    return ListV([R.const(k_) for k_ in range(int(n_.const_value()))])
+                return NotImplemented
+            vals = [e.eval(a_, env_) for a_ in node.args]
+            if all(isinstance(v_, (ListV, TupleV)) for v_ in vals) and vals:
+                if f.id == "zip":
+                    return ListV([TupleV(list(t_)) for t_ in zip(*[v_.items for v_ in vals])])
+                if f.id == "enumerate" and len(vals) == 1:
+                    return ListV([TupleV([R.const(k_), it_]) for k_, it_ in enumerate(vals[0].items)])
+                if f.id == "len" and len(vals) == 1:
+                    return R.const(len(vals[0].items))
+            return NotImplemented
+        if ftxt in ("self.logistic_and_gradient", "self.logistic"):
+            k = idx_of(node.args[1], e, env_) if len(node.args) > 1 else None
+            if ftxt == "self.logistic":
+                return R.sym(f"W{k}")
+            return TupleV([R.sym(f"W{k}"), ListV([R.sym(f"dW{k}_0"), R.sym(f"dW{k}_1")])])
+        return NotImplemented
+
+    def for_lists(ex_, st, env_):
+        v = ex_.eval(st.iter, env_)
+        if not isinstance(v, (ListV, TupleV)):
+            raise Unsupported(f"loop over `{U(st.iter)}` after unrolling")
+        for item in v.items:
+            ex_.assign(st.target, item, env_)
+            ex_.exec_block(st.body, env_)
+
+    results = {}
+    for mname in ("__call__", "build_covariance", "covariance_and_gradients"):
+        fn = cp.methods.get(mname)
+        if fn is None:
+            raise AnalysisError(f"anchor vanished: ChangePoint.{mname}")
+        f2 = specialise(fn, consts, lengths)
+        points = [a_.arg for a_ in fn.args.args[1:3]] if mname == "__call__" else []
+        ex = _CPExpander(prog, cp.module, cp)
+        ex.opaque_self_attrs = {"axis", "cp_slc", "cov_slc", "cov", "n_kernels", "x_cp"}
+        ex.call_hook = hook
+        ex.on_for = lambda node, env_: for_lists
+
+        def decide(node, env_, ex=ex):
+            t = node.test
+            if isinstance(t, ast.Compare) and len(t.ops) == 1:
+                a_, b_ = ex.eval(t.left, env_), ex.eval(t.comparators[0], env_)
+                if isinstance(a_, R) and isinstance(b_, R) and a_.is_const() and b_.is_const():
+                    x_, y_ = a_.const_value(), b_.const_value()
+                    r_ = {ast.Lt: x_ < y_, ast.LtE: x_ <= y_, ast.Gt: x_ > y_, ast.GtE: x_ >= y_, ast.Eq: x_ == y_, ast.NotEq: x_ != y_}.get(type(t.ops[0]))
+                    if r_ is not None:
+                        return "body" if r_ else "orelse"
+            raise Unsupported(f"branch `{U(t)}` is not decided by the instance size")
+        ex.on_if = decide
+        env = {a_.arg: R.sym(a_.arg) for a_ in fn.args.args[1:]}
+        env["self.n_kernels"] = R.const(m)
+        env["self.cov"] = ListV([R.sym(f"self.cov[{i_}]") for i_ in range(m)])
+        env["self.cov_slc"] = ListV([R.sym(f"self.cov_slc[{i_}]") for i_ in range(m)])
+        env["self.cp_slc"] = ListV([R.sym(f"self.cp_slc[{i_}]") for i_ in range(m - 1)])
+        try:
+            results[mname] = ex.run(f2.body, env)
+        except Unsupported as e:
+            raise AnalysisError(f"ChangePoint.{mname} (unrolled for {m} kernels): {e}")
+    # values
+    for mname, res in results.items():
+        val = res.items[0] if isinstance(res, TupleV) else res
+        ok = isinstance(val, R) and val.eq(want_val)
+        out.append(struct_ob("changepoint-instance", qual(cp, cp.methods[mname]) + f"[value, {m} kernels]", ok,
+                             f"with {m} kernels the covariance must be sum_i K_i c_i, c = (a_1, b_1 a_2, .., b_last): code has {str(val)[:300]}",
+                             COV, cp.methods[mname].lineno, tier="F"))
+    # gradients
+    res = results["covariance_and_gradients"]
+    if not (isinstance(res, TupleV) and len(res.items) == 2 and isinstance(res.items[1], ListV)):
+        raise AnalysisError("ChangePoint.covariance_and_gradients does not return (K, [gradients])")
+    grads = res.items[1].items
+    want = [R.sym(f"dK{i}") * c[i] for i in range(m)]
+    for k in range(m - 1):
+        for j in range(2):
+            d = anf.diff(want_val, ("sym", f"W{k}[@r]")) * R.sym(f"dW{k}_{j}[@r]") + anf.diff(want_val, ("sym", f"W{k}[@c]")) * R.sym(f"dW{k}_{j}[@c]")
+            want.append(d)
+    labels = [f"kernel {i} parameters" for i in range(m)] + [f"change-point {k} {'location' if j == 0 else 'width'}" for k in range(m - 1) for j in range(2)]
+    if len(grads) != len(want):
+        out.append(struct_ob("changepoint-instance", qual(cp, cp.methods["covariance_and_gradients"]) + f"[gradients, {m} kernels]", False,
+                             f"{len(grads)} gradient entries for {len(want)} parameters", COV, cp.methods["covariance_and_gradients"].lineno, tier="F"))
+    else:
+        bad = [(labels[i], grads[i], want[i]) for i in range(len(want)) if not (isinstance(grads[i], R) and grads[i].eq(want[i]))]
+        msg = ""
+        if bad:
+            lab, g_, w_ = bad[0]
+            msg = (f"with {m} kernels the gradient entry for `{lab}` is not the derivative of the covariance: code has {str(g_)[:260]} but the "
+                   f"derivative is {str(w_)[:260]}" + (f" (+{len(bad) - 1} more entries)" if len(bad) > 1 else ""))
+        out.append(struct_ob("changepoint-instance", qual(cp, cp.methods["covariance_and_gradients"]) + f"[gradients, {m} kernels]", not bad, msg,
+                             COV, cp.methods["covariance_and_gradients"].lineno, tier="F", slots={"entries": len(want)}))
+    return out
 
 
 def _changepoint(prog, cp):
